@@ -313,12 +313,17 @@ func (ctrl *DefaultController) importLog(ctx context.Context, store Store, log l
 						return nil, fmt.Errorf("failed to find schema: %w", err)
 					}
 				}
+				// volumes carried by an imported log are not trusted: they are recomputed by the commit
+				payload.Transaction.PostCommitVolumes = nil
+				payload.Transaction.PostCommitEffectiveVolumes = nil
 				if err := store.CommitTransaction(ctx, &payload.Transaction); err != nil {
 					return nil, fmt.Errorf("failed to commit transaction: %w", err)
 				}
 				if err := ctrl.upsertTransactionAccounts(ctx, store, schema, &payload.Transaction, payload.AccountMetadata); err != nil {
 					return nil, fmt.Errorf("failed to upsert transaction accounts: %w", err)
 				}
+				// the log records the transaction as committed here (payload is a copy of log.Data)
+				log.Data = payload
 				logging.FromContext(ctx).Debugf("Imported transaction %d", *payload.Transaction.ID)
 			case ledger.RevertedTransaction:
 				if payload.RevertedTransaction.ID == nil || payload.RevertedTransaction.RevertedAt == nil {
@@ -336,9 +341,15 @@ func (ctrl *DefaultController) importLog(ctx context.Context, store Store, log l
 				if err != nil {
 					return nil, fmt.Errorf("failed to revert transaction: %w", err)
 				}
+				// volumes carried by an imported log are not trusted (see above)
+				payload.RevertedTransaction.PostCommitVolumes = nil
+				payload.RevertedTransaction.PostCommitEffectiveVolumes = nil
+				payload.RevertTransaction.PostCommitVolumes = nil
+				payload.RevertTransaction.PostCommitEffectiveVolumes = nil
 				if err := store.CommitTransaction(ctx, &payload.RevertTransaction); err != nil {
 					return nil, fmt.Errorf("failed to commit transaction: %w", err)
 				}
+				log.Data = payload
 			case ledger.SavedMetadata:
 				switch payload.TargetType {
 				case ledger.MetaTargetTypeTransaction:
